@@ -224,6 +224,7 @@ def run(chk):
         raise MachineryError("vacuous generator: %s" % sorted(ops_seen))
     chk.mark("behaviours")
     objects_roundtrip(chk, rng)
+    cross_process(chk)
     return chk.finish(
         rule="cases = behaviours of MC_C18 of length 3 on real registries (1500 seeded in quick, all in thorough), and a catalogue of objects "
              "(exceptions, quantities of every magnitude type, units, measurements, containers) through every serialisation; distinct by "
@@ -352,6 +353,36 @@ def objects_roundtrip(chk, rng):
             chk.diverge({"clause": "lazy-registry-differs"}, {"answers": r})
     except Exception:
         chk.diverge({"clause": "lazy-registry-raises"}, {"stderr": p.stderr[-400:]})
+
+
+def cross_process(chk):
+    """objects pickled in one interpreter and loaded in another (another string-hash seed): equal to freshly built ones, usable as
+    dictionary keys - nothing process-specific (a cached hash) may travel with them"""
+    import json
+    import subprocess
+    import sys
+    import tempfile
+    d = tempfile.mkdtemp(prefix="c18x.", dir=chk.scratch)
+    build = ("import pint, pickle, sys\nfrom pint.util import UnitsContainer, ParserHelper\nu = pint.get_application_registry()\n"
+             "objs = {'container': UnitsContainer({'meter': 1, 'second': -2}), 'helper': ParserHelper(1, {'inch': 2}), 'unit': u.Unit('kilometer / hour'),\n"
+             "        'quantity': u.Quantity(2.5, 'microfarad'), 'empty': UnitsContainer()}\n")
+    producer = build + "[hash(o) for k, o in objs.items() if k != 'quantity']\nhash(objs['quantity'].units)\n" \
+        "for p in range(pickle.HIGHEST_PROTOCOL + 1):\n    pickle.dump(objs, open(sys.argv[1] + '/o%d.pkl' % p, 'wb'), p)\n"
+    consumer = build + "import json, glob\nbad = []\nfor fn in sorted(glob.glob(sys.argv[1] + '/o*.pkl')):\n    got = pickle.load(open(fn, 'rb'))\n" \
+        "    for k, fresh in objs.items():\n        g = got[k]\n        try:\n" \
+        "            ok = (g == fresh) and (fresh == g) and (k == 'quantity' or (hash(g) == hash(fresh) and {fresh: 1}.get(g) == 1))\n" \
+        "            if k == 'quantity': ok = ok and g.units == fresh.units and hash(g.units) == hash(fresh.units) and (g + fresh).magnitude == 5.0\n" \
+        "        except Exception as e:\n            ok = False\n        if not ok: bad.append([fn[-6:], k])\nprint(json.dumps(bad))\n"
+    env = dict(os.environ)
+    try:
+        p1 = subprocess.run([sys.executable, "-c", producer, d], env=dict(env, PYTHONHASHSEED="11"), capture_output=True, text=True)
+        p2 = subprocess.run([sys.executable, "-c", consumer, d], env=dict(env, PYTHONHASHSEED="23"), capture_output=True, text=True)
+        bad = json.loads(p2.stdout.strip().splitlines()[-1])
+    except Exception:
+        raise MachineryError("cross-process pickle driver failed:\n%s\n%s" % (p1.stderr[-500:], p2.stderr[-500:] if "p2" in dir() else ""))
+    chk.case(("cross-process-pickle",), nontrivial=True)
+    for fn, kind in bad:
+        chk.diverge({"clause": "cross-process-pickle", "object": kind}, {"file": fn, "object": kind, "producer_hash_seed": 11, "consumer_hash_seed": 23})
 
 
 def replay(chk, rec):
